@@ -293,6 +293,7 @@ def _edges_of_body(body):
 def apply_to_facts(F):
     """rewrite F.insts / F.fns / F.graph in place; returns a report dict"""
     report = {"helpers": [], "callers": {}}
+    thread.set_enum_table(F)
     # a helper that an anchor function forwards to (terms.ALIAS_ANCHORS) stays a unit: its calls are written as calls of the anchor
     from . import terms as T_
     partners = set(T_.call_aliases(F).keys())
